@@ -134,4 +134,382 @@ theorem Ctx.pruneC_inRange {α} (cov : List (Nat × Nat)) (xs : List α) (h : In
     have := h p hp
     omega
 
+/-! ### the readers -/
+
+namespace Gsub
+
+/-- GSUB 1.2 -/
+theorem read12_inRange (b : Bytes) (cov : List (Nat × Nat)) (subs : List Nat)
+    (h : read12 b = .ok (cov, subs)) : InRange cov subs.length := by
+  unfold read12 at h
+  split at h
+  · split at h
+    · simp at h
+    · cases hc : Cov.read (b.drop _) with
+      | ok c =>
+        rw [hc] at h
+        simp only [Outcome.ok.injEq] at h
+        have hp := fun (xs : List Nat) => prune_inRange c xs (Cov.read_idx _ c hc)
+        rename_i n rest _ _
+        have := hp (List.take n rest)
+        rw [h] at this
+        exact this
+      | err e => rw [hc] at h; simp at h
+      | panic s => rw [hc] at h; simp at h
+  · simp at h
+
+theorem readSeqs_length (b : Bytes) : ∀ (offs : List Nat) (r : List (List Nat)),
+    readSeqs b offs = .ok r → r.length = offs.length
+  | [], r, h => by simp only [readSeqs, Outcome.ok.injEq] at h; subst h; rfl
+  | o :: os, r, h => by
+    simp only [readSeqs] at h
+    cases h1 : readCounted b o with
+    | ok x =>
+      rw [h1] at h
+      cases h2 : readSeqs b os with
+      | ok rs => rw [h2] at h; simp only [Outcome.ok.injEq] at h; subst h; simp [readSeqs_length b os rs h2]
+      | err e => rw [h2] at h; simp at h
+      | panic s => rw [h2] at h; simp at h
+    | err e => rw [h1] at h; simp at h
+    | panic s => rw [h1] at h; simp at h
+
+/-- GSUB 2.1 / 3.1 -/
+theorem readSeq_inRange (b : Bytes) (cov : List (Nat × Nat)) (seqs : List (List Nat))
+    (h : readSeq b = .ok (cov, seqs)) : InRange cov seqs.length := by
+  unfold readSeq at h
+  split at h
+  · split at h
+    · simp at h
+    · cases hc : Cov.read (b.drop _) with
+      | ok c =>
+        rw [hc] at h
+        simp only at h
+        have hp := fun (xs : List Nat) => prune_inRange c xs (Cov.read_idx _ c hc)
+        cases h2 : readSeqs b (prune c (List.take _ _)).2 with
+        | ok ss =>
+          rw [h2] at h
+          simp only [Outcome.ok.injEq, Prod.mk.injEq] at h
+          obtain ⟨rfl, rfl⟩ := h
+          rw [readSeqs_length b _ _ h2]
+          exact hp _
+        | err e => rw [h2] at h; simp at h
+        | panic s => rw [h2] at h; simp at h
+      | err e => rw [hc] at h; simp at h
+      | panic s => rw [hc] at h; simp at h
+  · simp at h
+
+theorem readLigSets_length (b : Bytes) : ∀ (offs : List Nat) (r : List (List Lig)),
+    readLigSets b offs = .ok r → r.length = offs.length
+  | [], r, h => by simp only [readLigSets, Outcome.ok.injEq] at h; subst h; rfl
+  | o :: os, r, h => by
+    simp only [readLigSets] at h
+    split at h
+    · split at h
+      · simp at h
+      · cases h1 : readLigs b o _ with
+        | ok x =>
+          rw [h1] at h
+          cases h2 : readLigSets b os with
+          | ok rs => rw [h2] at h; simp only [Outcome.ok.injEq] at h; subst h; simp [readLigSets_length b os rs h2]
+          | err e => rw [h2] at h; simp at h
+          | panic s => rw [h2] at h; simp at h
+        | err e => rw [h1] at h; simp at h
+        | panic s => rw [h1] at h; simp at h
+    · simp at h
+
+/-- GSUB 4.1 -/
+theorem read41_inRange (b : Bytes) (cov : List (Nat × Nat)) (repl : List (List Lig))
+    (h : read41 b = .ok (cov, repl)) : InRange cov repl.length := by
+  unfold read41 at h
+  split at h
+  · split at h
+    · simp at h
+    · cases hc : Cov.read (b.drop _) with
+      | ok c =>
+        rw [hc] at h
+        simp only at h
+        have hp := fun (xs : List Nat) => prune_inRange c xs (Cov.read_idx _ c hc)
+        cases h2 : readLigSets b (prune c (List.take _ _)).2 with
+        | ok ss =>
+          rw [h2] at h
+          simp only at h
+          split at h
+          · simp at h
+          · simp only [Outcome.ok.injEq, Prod.mk.injEq] at h
+            obtain ⟨rfl, rfl⟩ := h
+            rw [readLigSets_length b _ _ h2]
+            exact hp _
+        | err e => rw [h2] at h; simp at h
+        | panic s => rw [h2] at h; simp at h
+      | err e => rw [hc] at h; simp at h
+      | panic s => rw [hc] at h; simp at h
+  · simp at h
+
+end Gsub
+
+/-- GPOS 1.2 -/
+theorem Gpos.read12_inRange (b : Bytes) (cov : List (Nat × Nat)) (vrs : List Gpos.VR)
+    (h : Gpos.read12 b = .ok (cov, vrs)) : InRange cov vrs.length := by
+  unfold Gpos.read12 at h
+  split at h
+  · cases h1 : Gpos.vrReadN _ _ _ with
+    | ok x =>
+      obtain ⟨v, r⟩ := x
+      rw [h1] at h
+      simp only at h
+      cases hc : Cov.read (b.drop _) with
+      | ok c =>
+        rw [hc] at h
+        simp only [Outcome.ok.injEq] at h
+        have := Gpos.prune_inRange c v (Cov.read_idx _ c hc)
+        rw [h] at this
+        exact this
+      | err e => rw [hc] at h; simp at h
+      | panic s => rw [hc] at h; simp at h
+    | err e => rw [h1] at h; simp at h
+    | panic s => rw [h1] at h; simp at h
+  · simp at h
+
+namespace GposMark
+
+/-- GPOS 3.1 -/
+theorem read31_inRange (b : Bytes) (cov : List (Nat × Nat)) (recs : List EntryExit)
+    (h : read31 b = .ok (cov, recs)) : InRange cov recs.length := by
+  unfold read31 at h
+  split at h
+  · split at h
+    · simp at h
+    · cases h1 : readEE b _ with
+      | ok rs =>
+        rw [h1] at h
+        simp only at h
+        cases hc : Cov.read (b.drop _) with
+        | ok c =>
+          rw [hc] at h
+          simp only [Outcome.ok.injEq] at h
+          have := Gpos.prune_inRange c rs (Cov.read_idx _ c hc)
+          rw [h] at this
+          exact this
+        | err e => rw [hc] at h; simp at h
+        | panic s => rw [hc] at h; simp at h
+      | err e => rw [h1] at h; simp at h
+      | panic s => rw [h1] at h; simp at h
+  · simp at h
+
+theorem readRows_length (b : Bytes) (pos cc : Nat) : ∀ (n : Nat) (offs : List Nat) (r : List (List Anchor)),
+    readRows b pos cc n offs = .ok r → r.length = n
+  | 0, _, r, h => by simp only [readRows, Outcome.ok.injEq] at h; subst h; rfl
+  | n + 1, offs, r, h => by
+    simp only [readRows] at h
+    cases h1 : readRow b pos (offs.take cc) with
+    | ok row =>
+      rw [h1] at h
+      cases h2 : readRows b pos cc n (offs.drop cc) with
+      | ok rs => rw [h2] at h; simp only [Outcome.ok.injEq] at h; subst h; simp [readRows_length b pos cc n _ rs h2]
+      | err e => rw [h2] at h; simp at h
+      | panic s => rw [h2] at h; simp at h
+    | err e => rw [h1] at h; simp at h
+    | panic s => rw [h1] at h; simp at h
+
+/-- GPOS 4.1 / 6.1: the mark coverage against the mark array, the base (mark2) coverage against the
+base (mark2) array -/
+theorem read41_inRange (b : Bytes) (r : MarkBase) (h : read41 b = .ok r) :
+    InRange r.mcov r.marks.length ∧ InRange r.bcov r.bases.length := by
+  unfold read41 at h
+  split at h
+  · cases hc1 : Cov.read (b.drop _) with
+    | ok mc =>
+      rw [hc1] at h
+      simp only at h
+      cases hc2 : Cov.read (b.drop _) with
+      | ok bc =>
+        rw [hc2] at h
+        simp only at h
+        cases hm : readMarkArray b _ mc.length with
+        | ok marks =>
+          rw [hm] at h
+          simp only at h
+          split at h
+          · rename_i cnt ws hw
+            have hb := Cov.read_idx _ bc hc2
+            have hmk := pruneA_inRange mc marks (Cov.read_idx _ mc hc1)
+            by_cases hgt : cnt > bc.length
+            · simp only [hgt, if_true] at h
+              split at h
+              · simp at h
+              · split at h
+                · simp at h
+                · cases hr : readRows b _ _ bc.length _ with
+                  | ok rows =>
+                    rw [hr] at h
+                    simp only [Outcome.ok.injEq] at h
+                    subst h
+                    refine ⟨hmk, ?_⟩
+                    simp only
+                    rw [readRows_length b _ _ _ _ rows hr]
+                    exact hb
+                  | err e => rw [hr] at h; simp at h
+                  | panic s => rw [hr] at h; simp at h
+            · simp only [hgt, if_false] at h
+              split at h
+              · simp at h
+              · split at h
+                · simp at h
+                · cases hr : readRows b _ _ cnt _ with
+                  | ok rows =>
+                    rw [hr] at h
+                    simp only [Outcome.ok.injEq] at h
+                    subst h
+                    refine ⟨hmk, ?_⟩
+                    simp only
+                    rw [readRows_length b _ _ _ _ rows hr]
+                    intro p hp
+                    simp only [List.mem_filter, decide_eq_true_eq] at hp
+                    exact hp.2
+                  | err e => rw [hr] at h; simp at h
+                  | panic s => rw [hr] at h; simp at h
+          · simp at h
+        | err e => rw [hm] at h; simp at h
+        | panic s => rw [hm] at h; simp at h
+      | err e => rw [hc2] at h; simp at h
+      | panic s => rw [hc2] at h; simp at h
+    | err e => rw [hc1] at h; simp at h
+    | panic s => rw [hc1] at h; simp at h
+  · simp at h
+
+end GposMark
+
+/-- GSUB 8.1: the input coverage against the substitutes -/
+theorem Gsub.read81_inRange (b : Bytes) (r : Gsub.Rev81) (h : Gsub.read81 b = .ok r) :
+    InRange r.input r.subs.length := by
+  unfold Gsub.read81 at h
+  split at h
+  · split at h
+    · simp at h
+    · split at h
+      · split at h
+        · simp at h
+        · split at h
+          · split at h
+            · simp at h
+            · cases hc : Cov.read (b.drop _) with
+              | ok c =>
+                rw [hc] at h
+                simp only at h
+                have hp := fun (xs : List Nat) => Gsub.prune_inRange c xs (Cov.read_idx _ c hc)
+                cases h1 : Gsub.readCovs b _ with
+                | ok bk =>
+                  rw [h1] at h
+                  simp only at h
+                  cases h2 : Gsub.readCovs b _ with
+                  | ok lk =>
+                    rw [h2] at h
+                    simp only [Outcome.ok.injEq] at h
+                    subst h
+                    exact hp _
+                  | err e => rw [h2] at h; simp at h
+                  | panic s => rw [h2] at h; simp at h
+                | err e => rw [h1] at h; simp at h
+                | panic s => rw [h1] at h; simp at h
+              | err e => rw [hc] at h; simp at h
+              | panic s => rw [hc] at h; simp at h
+          · simp at h
+      · simp at h
+  · simp at h
+
+namespace Ctx
+
+theorem readSets_length (rd : Bytes → Nat → Outcome Rule) (b : Bytes) : ∀ (offs : List Nat)
+    (r : List (Option (List Rule))), readSets rd b offs = .ok r → r.length = offs.length
+  | [], r, h => by simp only [readSets, Outcome.ok.injEq] at h; subst h; rfl
+  | o :: os, r, h => by
+    simp only [readSets] at h
+    split at h
+    · cases h2 : readSets rd b os with
+      | ok rs => rw [h2] at h; simp only [Outcome.ok.injEq] at h; subst h; simp [readSets_length rd b os rs h2]
+      | err e => rw [h2] at h; simp at h
+      | panic s => rw [h2] at h; simp at h
+    · simp at h
+    · simp at h
+
+theorem readSetsC1_length (b : Bytes) : ∀ (offs : List Nat) (total : Nat)
+    (r : List (Option (List Rule))), readSetsC1 b offs total = .ok r → r.length = offs.length
+  | [], _, r, h => by simp only [readSetsC1, Outcome.ok.injEq] at h; subst h; rfl
+  | o :: os, total, r, h => by
+    simp only [readSetsC1] at h
+    split at h
+    · cases h2 : readSetsC1 b os total with
+      | ok rs => rw [h2] at h; simp only [Outcome.ok.injEq] at h; subst h; simp [readSetsC1_length b os total rs h2]
+      | err e => rw [h2] at h; simp at h
+      | panic s => rw [h2] at h; simp at h
+    · split at h
+      · split at h
+        · simp at h
+        · split at h
+          · rename_i rules size _
+            cases h2 : readSetsC1 b os (total + size) with
+            | ok rs => rw [h2] at h; simp only [Outcome.ok.injEq] at h; subst h; simp [readSetsC1_length b os _ rs h2]
+            | err e => rw [h2] at h; simp at h
+            | panic s => rw [h2] at h; simp at h
+          · simp at h
+          · simp at h
+      · simp at h
+      · simp at h
+
+/-- SeqContext1 -/
+theorem read1_inRange (b : Bytes) (ch : Bool) (cov : List (Nat × Nat)) (sets : List (Option (List Rule)))
+    (h : read1 b = .ok (.c1 ch cov sets)) : InRange cov sets.length := by
+  unfold read1 at h
+  split at h
+  · split at h
+    · rename_i offs _ _
+      cases hc : Cov.read (b.drop _) with
+      | ok c =>
+        rw [hc] at h
+        simp only at h
+        have hp := fun (xs : List Nat) => pruneC_inRange c xs (Cov.read_idx _ c hc)
+        cases h2 : readSets readRule b (pruneC c offs).2 with
+        | ok ss =>
+          rw [h2] at h
+          simp only [Outcome.ok.injEq, Sub.c1.injEq] at h
+          obtain ⟨_, rfl, rfl⟩ := h
+          rw [readSets_length _ b _ _ h2]
+          exact hp _
+        | err e => rw [h2] at h; simp at h
+        | panic s => rw [h2] at h; simp at h
+      | err e => rw [hc] at h; simp at h
+      | panic s => rw [hc] at h; simp at h
+    · simp at h
+    · simp at h
+  · simp at h
+
+/-- ChainedSeqContext1 -/
+theorem readC1_inRange (b : Bytes) (ch : Bool) (cov : List (Nat × Nat)) (sets : List (Option (List Rule)))
+    (h : readC1 b = .ok (.c1 ch cov sets)) : InRange cov sets.length := by
+  unfold readC1 at h
+  split at h
+  · split at h
+    · rename_i offs _ _
+      cases hc : Cov.read (b.drop _) with
+      | ok c =>
+        rw [hc] at h
+        simp only at h
+        have hp := fun (xs : List Nat) => pruneC_inRange c xs (Cov.read_idx _ c hc)
+        cases h2 : readSetsC1 b (pruneC c offs).2 _ with
+        | ok ss =>
+          rw [h2] at h
+          simp only [Outcome.ok.injEq, Sub.c1.injEq] at h
+          obtain ⟨_, rfl, rfl⟩ := h
+          rw [readSetsC1_length b _ _ _ h2]
+          exact hp _
+        | err e => rw [h2] at h; simp at h
+        | panic s => rw [h2] at h; simp at h
+      | err e => rw [hc] at h; simp at h
+      | panic s => rw [hc] at h; simp at h
+    · simp at h
+    · simp at h
+  · simp at h
+
+end Ctx
+
 end SfntV.Otl
